@@ -73,8 +73,20 @@ def _call(beh, dtype, mode):
             elif mode == "out":
                 res = psd_safe_cholesky(A, upper=upper, out=out_buf, jitter=jb, max_tries=k)
             elif mode == "settings":
-                with settings.cholesky_jitter(float_value=jb, double_value=jb), settings.cholesky_max_tries(k):
-                    res = psd_safe_cholesky(A, upper=upper)
+                # the context object is entered again while it is active (a helper re-using the caller's context): neither the values
+                # inside the outer block nor the values after it may be disturbed
+                before = (settings.cholesky_jitter.value(torch.float32), settings.cholesky_jitter.value(torch.float64), settings.cholesky_max_tries.value())
+                ctx = settings.cholesky_jitter(float_value=jb, double_value=jb)
+                try:
+                    with ctx, settings.cholesky_max_tries(k):
+                        with ctx:
+                            pass
+                        res = psd_safe_cholesky(A, upper=upper)
+                finally:
+                    after = (settings.cholesky_jitter.value(torch.float32), settings.cholesky_jitter.value(torch.float64), settings.cholesky_max_tries.value())
+                    if after != before:
+                        fails.append("settings not restored after the block: cholesky_jitter / cholesky_max_tries %s -> %s" % (before, after))
+                        settings.cholesky_jitter._set_value(before[0], before[1], None)
             elif mode == "operator":
                 with settings.cholesky_jitter(float_value=jb, double_value=jb), settings.cholesky_max_tries(k):
                     res = DenseLinearOperator(A).cholesky(upper=upper).to_dense()
